@@ -300,6 +300,38 @@ def make_trim_fraction(wts, bins):
             def __rge__(self, other):
                 return self.__le__(other)
 
+            # any other use of the fraction (arithmetic, other comparisons) falls back to the plain symbolic real
+            def __mul__(self, o):
+                return ess * o
+
+            __rmul__ = __mul__
+
+            def __truediv__(self, o):
+                return ess / o
+
+            def __rtruediv__(self, o):
+                return o / ess
+
+            def __add__(self, o):
+                return ess + o
+
+            __radd__ = __add__
+
+            def __sub__(self, o):
+                return ess - o
+
+            def __rsub__(self, o):
+                return o - ess
+
+            def __ge__(self, other):
+                return bool(SymBool(le(Fraction(float(other)), ess)))
+
+            def __lt__(self, other):
+                return bool(SymBool(lt(ess, Fraction(float(other)))))
+
+            def __gt__(self, other):
+                return bool(SymBool(lt(Fraction(float(other)), ess)))
+
         try:
             with patched(tools, np=NpProxy(overrides={"percentile": pct})):
                 idx, wt = tools.trim_weights(np.arange(N), np.array(W), ess=Frac(), bins=bins)
